@@ -734,4 +734,182 @@ theorem construct_refuses {items : List Item} {r sr : Bool} (h : ∃ it ∈ item
     obtain ⟨it, hit, hbad⟩ := h
     exact absurd (ctorCheck_relOk ((construct_ok hc).2.2.2.2 it hit)) hbad
 
+/-! ## extended-slice assignment cannot fail half-way: the walk uses up its values -/
+
+theorem keepIdxs_cons_in (a : Item) (l : List Item) (idxs : List Nat) (pos : Nat) (h : idxs.contains pos = true) :
+    keepIdxs (a :: l) idxs pos = a :: keepIdxs l idxs (pos + 1) := by
+  have h' : pos ∈ idxs := by simpa using h
+  simp [keepIdxs, List.zipIdx_cons, h']
+
+theorem keepIdxs_cons_out (a : Item) (l : List Item) (idxs : List Nat) (pos : Nat) (h : idxs.contains pos = false) :
+    keepIdxs (a :: l) idxs pos = keepIdxs l idxs (pos + 1) := by
+  have h' : pos ∉ idxs := by simpa using h
+  simp [keepIdxs, List.zipIdx_cons, h']
+
+theorem setWalk_isSome (l : List Item) (idxs : List Nat) (xs : List Item) (pos : Nat)
+    (h : xs.length = (keepIdxs l idxs pos).length) : (setWalk l idxs xs pos).isSome = true := by
+  induction l generalizing xs pos with
+  | nil =>
+    have : xs = [] := by simpa [keepIdxs] using h
+    subst this
+    simp [setWalk]
+  | cons a l ih =>
+    unfold setWalk
+    by_cases hc : idxs.contains pos = true
+    · rw [if_pos hc]
+      rw [keepIdxs_cons_in a l idxs pos hc] at h
+      cases xs with
+      | nil => simp at h
+      | cons x xs' =>
+        simp only [Option.isSome_map]
+        exact ih xs' (pos + 1) (by simpa using h)
+    · rw [if_neg hc]
+      rw [keepIdxs_cons_out a l idxs pos (by simpa using hc)] at h
+      simp only [Option.isSome_map]
+      exact ih xs (pos + 1) h
+
+theorem keepIdxs_length (l : List Item) (idxs : List Nat) (hn : idxs.Nodup) (hb : ∀ i ∈ idxs, i < l.length) :
+    (keepIdxs l idxs 0).length = idxs.length := by
+  unfold keepIdxs
+  rw [List.length_map]
+  have e : ((l.zipIdx 0).filter (fun p => idxs.contains p.2)).length
+      = (((l.zipIdx 0).map Prod.snd).filter (fun i => idxs.contains i)).length := by
+    rw [List.filter_map, List.length_map]; rfl
+  rw [e, List.zipIdx_map_snd]
+  apply List.Perm.length_eq
+  rw [List.perm_ext_iff_of_nodup ((List.nodup_range' 1).sublist List.filter_sublist |> fun h => h) hn]
+  intro a
+  simp only [List.mem_filter, List.mem_range', List.contains_iff_mem]
+  constructor
+  · intro h; exact h.2
+  · intro h; exact ⟨⟨a, hb a h, by omega⟩, h⟩
+
+theorem adjustBound_pos (n : Nat) (st v : Int) (h : 0 < st) : 0 ≤ adjustBound n st v ∧ adjustBound n st v ≤ n := by
+  unfold adjustBound
+  split <;> split <;> (try split) <;> omega
+
+theorem adjustBound_neg (n : Nat) (st v : Int) (h : st < 0) : -1 ≤ adjustBound n st v ∧ adjustBound n st v ≤ (n : Int) - 1 := by
+  unfold adjustBound
+  split <;> split <;> (try split) <;> omega
+
+theorem sliceAdjust_pos (n : Nat) (a b : Option Int) (st : Int) (h : 0 < st) :
+    0 ≤ (sliceAdjust n a b st).1 ∧ (sliceAdjust n a b st).1 ≤ n ∧ 0 ≤ (sliceAdjust n a b st).2 ∧ (sliceAdjust n a b st).2 ≤ n := by
+  unfold sliceAdjust
+  have h1 := fun v => adjustBound_pos n st v h
+  cases a <;> cases b <;> simp only [] <;> (try split) <;> (try split) <;>
+    first | omega | (refine ⟨?_, ?_, ?_, ?_⟩ <;> first | omega | exact (h1 _).1 | exact (h1 _).2)
+
+theorem sliceAdjust_neg (n : Nat) (a b : Option Int) (st : Int) (h : st < 0) :
+    -1 ≤ (sliceAdjust n a b st).1 ∧ (sliceAdjust n a b st).1 ≤ (n : Int) - 1 ∧ -1 ≤ (sliceAdjust n a b st).2 ∧
+      (sliceAdjust n a b st).2 ≤ (n : Int) - 1 := by
+  unfold sliceAdjust
+  have h1 := fun v => adjustBound_neg n st v h
+  cases a <;> cases b <;> simp only [] <;> (try split) <;> (try split) <;>
+    first | omega | (refine ⟨?_, ?_, ?_, ?_⟩ <;> first | omega | exact (h1 _).1 | exact (h1 _).2)
+
+theorem range'_bound (s len step N : Nat) (h : len = 0 ∨ s + step * (len - 1) < N) :
+    ∀ i ∈ List.range' s len step, i < N := by
+  intro i hi
+  obtain ⟨j, hj, e⟩ := List.mem_range'.mp hi
+  rcases h with h | h
+  · omega
+  · have : step * j ≤ step * (len - 1) := Nat.mul_le_mul_left _ (by omega)
+    omega
+
+theorem resolveSlice_ext {n : Nat} {a b c : Option Int} {asc : List Nat} {rev : Bool}
+    (h : resolveSlice n a b c = .ok (.ext asc rev)) : asc.Nodup ∧ ∀ i ∈ asc, i < n := by
+  unfold resolveSlice at h
+  simp only at h
+  split at h
+  · cases h
+  · rename_i hst0
+    split at h
+    · cases h
+    · rename_i hst1
+      split at h
+      · rename_i hpos
+        -- positive step
+        simp only [Except.ok.injEq, Sel.ext.injEq] at h
+        obtain ⟨h, _⟩ := h
+        subst h
+        have hb := sliceAdjust_pos n a b (c.getD 1) hpos
+        generalize (sliceAdjust n a b (c.getD 1)).1 = s at *
+        generalize (sliceAdjust n a b (c.getD 1)).2 = e at *
+        generalize c.getD 1 = st at *
+        refine ⟨List.nodup_range' _ (by omega), ?_⟩
+        apply range'_bound
+        by_cases hse : s < e
+        · right
+          rw [if_pos hse]
+          have hq : st * ((e - s - 1) / st) ≤ e - s - 1 := Int.mul_ediv_self_le (by omega)
+          have hq0 : 0 ≤ (e - s - 1) / st := Int.ediv_nonneg (by omega) (by omega)
+          generalize (e - s - 1) / st = q at *
+          have e1 : (q + 1).toNat - 1 = q.toNat := by omega
+          rw [e1]
+          have e2 : ((st.toNat * q.toNat : Nat) : Int) = st * q := by
+            push_cast
+            rw [Int.toNat_of_nonneg (by omega), Int.toNat_of_nonneg hq0]
+          generalize st * q = m at *
+          generalize st.toNat * q.toNat = m' at *
+          omega
+        · left
+          rw [if_neg hse]; rfl
+      · rename_i hpos
+        -- negative step
+        simp only [Except.ok.injEq, Sel.ext.injEq] at h
+        obtain ⟨h, _⟩ := h
+        subst h
+        have hneg : c.getD 1 < 0 := by omega
+        have hb := sliceAdjust_neg n a b (c.getD 1) hneg
+        generalize (sliceAdjust n a b (c.getD 1)).1 = s at *
+        generalize (sliceAdjust n a b (c.getD 1)).2 = e at *
+        generalize c.getD 1 = st at *
+        refine ⟨List.nodup_range' _ (by omega), ?_⟩
+        apply range'_bound
+        by_cases hse : e < s
+        · right
+          rw [if_pos hse]
+          have hq : (-st) * ((s - e - 1) / (-st)) ≤ s - e - 1 := Int.mul_ediv_self_le (by omega)
+          have hq0 : 0 ≤ (s - e - 1) / (-st) := Int.ediv_nonneg (by omega) (by omega)
+          generalize (s - e - 1) / (-st) = q at *
+          have e1 : (q + 1).toNat - 1 = q.toNat := by omega
+          rw [e1]
+          have e0 : q + 1 - 1 = q := by omega
+          rw [e0]
+          have e2 : (((-st).toNat * q.toNat : Nat) : Int) = (-st) * q := by
+            push_cast
+            rw [Int.toNat_of_nonneg (by omega), Int.toNat_of_nonneg hq0]
+          have e3 : q * (-st) = (-st) * q := Int.mul_comm _ _
+          rw [e3]
+          generalize (-st) * q = m at *
+          generalize (-st).toNat * q.toNat = m' at *
+          omega
+        · left
+          rw [if_neg hse]; rfl
+
+/-- on a resolved extended slice, assignment of as many items as the slice has positions succeeds -/
+theorem setSel_ext_ok {l xs : List Item} {a b c : Option Int} {asc : List Nat} {rev : Bool}
+    (hsel : resolveSlice l.length a b c = .ok (.ext asc rev)) (hlen : xs.length = asc.length) :
+    ∃ l', setSel l xs (.ext asc rev) = .ok l' := by
+  obtain ⟨hn, hb⟩ := resolveSlice_ext hsel
+  have hk := keepIdxs_length l asc hn hb
+  have hsome := setWalk_isSome l asc (if rev = true then xs.reverse else xs) 0 (by
+    rw [hk]; cases rev <;> simp [hlen])
+  simp only [setSel]
+  rw [if_neg (by simpa using hlen)]
+  cases hw : setWalk l asc (if rev = true then xs.reverse else xs) 0 with
+  | none => rw [hw] at hsome; cases hsome
+  | some l' => exact ⟨l', rfl⟩
+
+theorem setSel_ext_mismatch {l xs : List Item} {asc : List Nat} {rev : Bool} (hlen : xs.length ≠ asc.length) :
+    setSel l xs (.ext asc rev) = .error .value := by
+  simp only [setSel]
+  rw [if_pos hlen]
+
+theorem getSel_ext_length {l : List Item} {a b c : Option Int} {asc : List Nat} {rev : Bool}
+    (hsel : resolveSlice l.length a b c = .ok (.ext asc rev)) : (getSel l (.ext asc rev)).length = asc.length := by
+  obtain ⟨hn, hb⟩ := resolveSlice_ext hsel
+  simp only [getSel]
+  cases rev <;> simp [keepIdxs_length l asc hn hb]
+
 end HdVerif.SRContentSeqLemmas
